@@ -24,9 +24,10 @@ SUITE_FAILS=$(grep -E "^test .* FAILED|^test result: FAILED" /tmp/seed_suite_wit
 DEMO_FAILS=$(grep -E "^test .* FAILED" /tmp/seed_demo_with.log | awk '{print $2}' | sort -u)
 FAILED_TESTS=$(grep -E "^test .* FAILED" /tmp/seed_suite_with.log | grep -v "test_their_pub_our_sub" | awk '{print $2}' | sort -u | grep -v -x -F "$DEMO_FAILS")
 # 2. without the change
-git -C $WT stash push -q -- src
+# (no git stash: the stash is shared between all worktrees of /repo)
+git -C $WT apply -R $OUT/patch.diff || { echo "cannot revert the change in the worktree"; exit 2; }
 timeout 900 cargo test --offline --test "$DEMO" > /tmp/seed_demo_without.log 2>&1; WITHOUT=$?
-git -C $WT stash pop -q
+git -C $WT apply $OUT/patch.diff
 echo "demo with change: exit=$WITH (expect non-zero)   without change: exit=$WITHOUT (expect 0)"
 echo "existing-suite failures with change (other than the known-bad compliance test): "
 echo "$FAILED_TESTS" | grep -v "^$" | sed 's/^/   /'
